@@ -8,42 +8,47 @@
   run (`Gen.poolShape_*`, plus the body of `waitOrInterrupted`).
   Tie beyond the shapes: the harness cancels the context at the k-th hit of the instrumented
   feeder site for every k and every function and monitors "nil ⇒ work complete".
-  Not modelled: signal delivery and exit status of cmd/desync (the CLI cancels the same context),
-  worker-checked loops of Tar/UnTar/pChunker (they test ctx at every iteration; exercised only).
+  `Model/CancelSeq.lean` — the sequential loop of `UnTar` polling its context at the top of every
+  iteration, and the `UnTarIndex` pipeline (assembler → pipe → `UnTar`): where the polls sit and what
+  the assembler does when cancelled are regenerated (`Gen.untarPoll`, `Gen.tarPoll`, `Gen.pchunkerPoll`,
+  `Gen.untarIndexAssemblerOnCancel`).
+  Not modelled: signal delivery and exit status of cmd/desync (the CLI cancels the same context); the
+  recursion of `tar` and the worker loop of `pChunker.start` are tied by their regenerated poll only.
 -/
 import Desync.Proofs.PoolProofs
+import Desync.Proofs.CancelSeqProofs
 
 namespace Desync.C07
 open Desync.Pool
 
 /-- **every schedule, every cancellation point**: with a shape that marks and reports
     interruption, a result of success means every job was completed -/
-theorem cancel_never_success (sh : PoolShape) (hsh : sh.ok = true) (jobs n : Nat) (s : St)
-    (h : Reachable sh (St.init jobs n) s) (hr : s.result = some .ok) :
+theorem cancel_never_success (sh : PoolShape) (hsh : sh.ok = true) (jobs n : Nat) (s : Pool.St)
+    (h : Reachable sh (Pool.St.init jobs n) s) (hr : s.result = some .ok) :
     ∀ j, j < jobs → s.done.getD j false = true :=
   Desync.Pool.cancel_never_success sh hsh jobs n s h hr
 
 /-- a failing job is always reported -/
-theorem failure_is_reported (sh : PoolShape) (jobs n : Nat) (s : St)
-    (h : Reachable sh (St.init jobs n) s) (hr : s.result = some .ok) : s.groupErr = false :=
+theorem failure_is_reported (sh : PoolShape) (jobs n : Nat) (s : Pool.St)
+    (h : Reachable sh (Pool.St.init jobs n) s) (hr : s.result = some .ok) : s.groupErr = false :=
   Desync.Pool.failure_is_reported sh jobs n s h hr
 
 /-- without cancellation and failures the operation succeeds with all work done (so the
     interruption error is not raised spuriously) -/
-theorem no_cancel_success (sh : PoolShape) (jobs n : Nat) (s : St) (r : Res)
-    (h : Reachable sh (St.init jobs n) s) (hr : s.result = some r)
+theorem no_cancel_success (sh : PoolShape) (jobs n : Nat) (s : Pool.St) (r : Pool.Res)
+    (h : Reachable sh (Pool.St.init jobs n) s) (hr : s.result = some r)
     (hc : s.parentCancelled = false) (he : s.groupErr = false) :
     r = .ok ∧ ∀ j, j < jobs → s.done.getD j false = true :=
   no_cancel_all_done sh jobs n s r h hr hc he
 
 /-- the pool never deadlocks -/
-theorem pool_no_deadlock (sh : PoolShape) (jobs n : Nat) (s : St) (hn : 1 ≤ n)
-    (h : Reachable sh (St.init jobs n) s) (hr : s.result = none) :
+theorem pool_no_deadlock (sh : PoolShape) (jobs n : Nat) (s : Pool.St) (hn : 1 ≤ n)
+    (h : Reachable sh (Pool.St.init jobs n) s) (hr : s.result = none) :
     ∃ e s', e ≠ Ev.parentCancel ∧ step sh s e = some s' :=
   no_deadlock sh jobs n s hn h hr
 
 /-- the pinned tree's shape reports success with unfinished work (sensitivity witness) -/
-theorem legacy_shape_violates : ∃ (es : List Ev), let s := run ⟨false, false⟩ (St.init 2 1) es
+theorem legacy_shape_violates : ∃ (es : List Ev), let s := run ⟨false, false⟩ (Pool.St.init 2 1) es
     s.result = some .ok ∧ s.done.getD 1 false = false :=
   Desync.Pool.legacy_shape_violates
 
@@ -70,5 +75,45 @@ theorem gen_extract_tmpfile_protocol :
     Gen.site_shape_extract_tmpfile_found = true ∧
     Gen.extractTmpFileShape = ["TempFile", "Remove", "Assemble", "Rename"] ∧
     Gen.extractTmpFileReturnsOnError = true := by decide
+
+/-! ### sequential loops and the UnTarIndex pipeline -/
+
+/-- **UnTar**: a run that ends in success went through the whole archive — it returns exactly what the
+    uncancelled run returns — whenever the cancellation arrived; a cancellation seen at poll `k` with at
+    least `k` nodes in the archive ends in `Interrupted`; a context cancelled before the call always does -/
+theorem untar_cancel_never_success :
+    (∀ (c : Option Nat) (b : Bytes) (ns : List Node), CancelSeq.untarC c b = .done (.ok ns) → untar b = .ok ns) ∧
+    (∀ (k : Nat) (b : Bytes) (ns : List Node), untar b = .ok ns → k ≤ ns.length →
+      CancelSeq.untarC (some k) b = .interrupted) ∧
+    (∀ b : Bytes, CancelSeq.untarC (some 0) b = .interrupted) := by
+  refine ⟨CancelSeq.untarC_ok, ?_, CancelSeq.untarC_cancelled_at_start⟩
+  intro k b ns h hk
+  exact CancelSeq.untarNodesC_interrupted k _ 0 _ [] ns h (Nat.zero_le _) (by simp; omega)
+
+/-- **UnTarIndex**: with the assembler closing the pipe with an error when cancelled, success means that
+    the feeder handed out every chunk, every fetch succeeded and `UnTar` unpacked the complete archive -/
+theorem untar_index_success_complete (chunks : List Bytes) (cancelAt : Option Nat) (f w : Bool)
+    (ns : List Node) (h : CancelSeq.unTarIndex true chunks cancelAt f w = some ns) :
+    untar chunks.flatten = .ok ns ∧ f = true ∧ w = true :=
+  CancelSeq.unTarIndex_success_complete chunks cancelAt f w ns h
+
+/-- the assembler as it was before the repair (`break loop`, clean close) reports success with the queued
+    chunks dropped whenever the index is cut at a node boundary: the obligation below is not idle -/
+theorem legacy_assembler_violates (chunks : List Bytes) (k : Nat) (hk : k ≤ chunks.length)
+    (ns : List Node) (hacc : untar (chunks.take k).flatten = .ok ns) :
+    CancelSeq.unTarIndex false chunks (some k) true true = some ns :=
+  CancelSeq.legacy_assembler_drops_chunks chunks k hk ns hacc
+
+/-- **regenerated obligation**: `UnTar`, `tar` and `pChunker.start` poll `ctx.Done()` first thing in every
+    iteration / call and report `Interrupted`; after its loop `UnTar` returns the writer's `finishUntar`
+    result or nil; the assembler of `UnTarIndex` closes the pipe with an error and returns `Interrupted` -/
+theorem gen_polls_report_interruption :
+    Gen.untarPoll = "return Interrupted" ∧ Gen.tarPoll = "return Interrupted" ∧
+    Gen.pchunkerPoll = "err=Interrupted;return" ∧
+    Gen.untarAfterLoop = ["if-return:f.finishUntar()", "return:nil"] ∧
+    Gen.untarIndexAssemblerOnCancel = ["CloseWithError(Interrupted)", "return Interrupted"] ∧
+    Gen.site_poll_UnTar_found = true ∧ Gen.site_poll_tar_found = true ∧ Gen.site_poll_pChunker_found = true ∧
+    Gen.site_poll_UnTar_after_found = true ∧ Gen.site_poll_UnTarIndex_assembler_found = true := by
+  decide
 
 end Desync.C07
